@@ -195,6 +195,7 @@ func runC13(w *fw.Worker) {
 			return
 		}
 		for _, op := range errOps {
+			w.Progress()
 			stmts := append(append([]pt.Stmt(nil), prefix...), op...)
 			stmts = append(stmts, pt.Print(pt.S("state"), pt.V("err"), pt.V("errmsg"), pt.V("e0"), pt.V("m0")))
 			full := append([]pt.Stmt{pt.InferDecl{Name: "e0", X: pt.B(false)}, pt.InferDecl{Name: "m0", X: pt.S("")}}, stmts...)
